@@ -561,6 +561,13 @@ class Interp:
         raise Fail("unhandled select case")
 
     # -- functional operators
+    def arity(self, f, t, extra):
+        """the functional operators call their function with a fixed number of arguments
+        (list/string: item; tuple: name, value; reduce adds the accumulator)"""
+        want = (2 if t[0] == "t" else 1) + extra
+        if f[0] == "F" and t[0] in "lts" and len(f[1]) != want:
+            raise Fail("functional-op callback arity")
+
     def items_of(self, t):
         if t[0] == "l":
             return "l", [[x] for x in t[1]]
@@ -577,6 +584,7 @@ class Interp:
         t = self.ev(e[2], env, selfs)
         if f[0] != "F":
             raise Fail("map with a non-function")
+        self.arity(f, t, 0)
         kind, items = self.items_of(t)
         out = []
         for it in items:
@@ -604,6 +612,7 @@ class Interp:
         t = self.ev(e[2], env, selfs)
         if f[0] != "F":
             raise Fail("filter with a non-function")
+        self.arity(f, t, 0)
         kind, items = self.items_of(t)
         keep = []
         for it in items:
@@ -623,6 +632,7 @@ class Interp:
         t = self.ev(e[3], env, selfs)
         if f[0] != "F":
             raise Fail("reduce with a non-function")
+        self.arity(f, t, 1)
         kind, items = self.items_of(t)
         for it in items:
             acc = self.call(f, [acc] + it)
